@@ -37,30 +37,38 @@ fn run20<T: Est>(c: &Ingest, o: &mut Obs) -> TestResult {
     let mut extend_onto_nonempty = false;
     for (k, w) in b.windows(2).enumerate() {
         let seg = &c.vals[w[0]..w[1]];
-        let mut path = c.paths.get(k).copied().unwrap_or(4) % 5;
-        if !T::HAS_COLLECT && path < 2 {
+        // 0..4 as documented; 5/6 collect by value/reference, 7/8 extend by value/reference through an
+        // iterator whose size_hint lower bound is 0 (a filter that keeps everything)
+        let mut path = c.paths.get(k).copied().unwrap_or(4) % 9;
+        let is_collect = |p: u8| p < 2 || p == 5 || p == 6;
+        let is_extend = |p: u8| p == 2 || p == 3 || p == 7 || p == 8;
+        if !T::HAS_COLLECT && is_collect(path) {
             path = 4;
         }
-        if !T::HAS_EXTEND && (path == 2 || path == 3) {
+        if !T::HAS_EXTEND && is_extend(path) {
             path = 4;
         }
-        if k > 0 && path < 2 {
+        if k > 0 && is_collect(path) {
             path = 4;
         }
         match (path, t.as_mut()) {
             (0, None) => t = Some(T::collect_val(seg)),
             (1, None) => t = Some(T::collect_ref(seg)),
+            (5, None) => t = Some(T::collect_val_u(seg)),
+            (6, None) => t = Some(T::collect_ref_u(seg)),
             (p, cur) => {
                 if cur.is_none() {
                     t = Some(if k % 2 == 0 { T::new_() } else { T::default_() });
                 }
                 let e = t.as_mut().unwrap();
-                if (p == 2 || p == 3) && w[0] > 0 && !seg.is_empty() {
+                if is_extend(p) && w[0] > 0 && !seg.is_empty() {
                     extend_onto_nonempty = true;
                 }
                 match p {
                     2 => e.extend_val_(seg),
                     3 => e.extend_ref_(seg),
+                    7 => e.extend_val_u(seg),
+                    8 => e.extend_ref_u(seg),
                     _ => {
                         for &(x, y) in seg {
                             e.add2(x, y);
@@ -241,7 +249,7 @@ impl Check for Concat {
 }
 
 pub fn run(cx: &Ctx) {
-    cx.set_rule("cases = (type, sequence over the C01 domain, cut points, one ingestion path per segment out of {collect by value, collect by reference (first segment), extend by value, extend by reference, add loop}) for Mean, Variance, Skewness, Kurtosis, Moments4, an order-6 define_moments! type, Min, Max (no Extend), WeightedMean, WeightedMeanWithError, Covariance ((f64,f64) and &(f64,f64) items): every public accessor bit-equal to the plain add loop; Estimate::estimate() bit-equal to the headline accessor; and concatenate!-generated structs (2-field MinMax; 4-field [Variance: mean, sample_variance, population_variance, error], [Quantile: quantile], [Kurtosis: kurtosis, skewness], [Max: max]; `pub` variants, one defined in another module) built by new()+add, default()+add, collect by value and by reference report bit-for-bit what the stand-alone estimators report. Non-trivial = at least two different paths with an extend onto a non-empty estimator (concatenate: n >= 2); distinct = hash of the inputs");
+    cx.set_rule("cases = (type, sequence over the C01 domain, cut points, one ingestion path per segment out of {collect by value, collect by reference (first segment), extend by value, extend by reference, add loop, and the same collect/extend calls through an iterator whose size_hint lower bound is 0}) for Mean, Variance, Skewness, Kurtosis, Moments4, an order-6 define_moments! type, Min, Max (no Extend), WeightedMean, WeightedMeanWithError, Covariance ((f64,f64) and &(f64,f64) items): every public accessor bit-equal to the plain add loop; Estimate::estimate() bit-equal to the headline accessor; and concatenate!-generated structs (2-field MinMax; 4-field [Variance: mean, sample_variance, population_variance, error], [Quantile: quantile], [Kurtosis: kurtosis, skewness], [Max: max]; `pub` variants, one defined in another module) built by new()+add, default()+add, collect by value and by reference report bit-for-bit what the stand-alone estimators report. Non-trivial = at least two different paths with an extend onto a non-empty estimator (concatenate: n >= 2); distinct = hash of the inputs");
     cx.label("fixed");
     {
         // reproducer of known finding K3 (see KNOWN_FINDINGS.txt); whether it manifests depends on the build
@@ -266,7 +274,7 @@ pub fn run(cx: &Ctx) {
         let ty = ty.to_string();
         let strat = move || {
             let ty = ty.clone();
-            (prop_oneof![3 => vec((first_value(kind), second_value(kind)), 0..60), 1 => vec((first_value(kind), second_value(kind)), 60..700)], vec(any::<proptest::sample::Index>(), 0..5), vec(0u8..5, 6)).prop_map(move |(vals, ix, paths)| {
+            (prop_oneof![3 => vec((first_value(kind), second_value(kind)), 0..60), 1 => vec((first_value(kind), second_value(kind)), 60..700)], vec(any::<proptest::sample::Index>(), 0..5), vec(0u8..9, 6)).prop_map(move |(vals, ix, paths)| {
                 let n = vals.len();
                 let mut cuts: Vec<usize> = ix.iter().map(|i| i.index(n + 1)).collect();
                 cuts.sort();
